@@ -26,9 +26,9 @@ CANARIES = {
          'harness': 'c14', 'doc': 'ℝa'},
     ],
     'C13': [
-        {'name': 'splice-keeps-first-deleted-byte', 'file': 'crates/glas/src/vfs.rs',
-         'old': "                buf += &text[usize::from(del_range.end())..];", 'new': "                buf += &text[usize::from(del_range.end()).min(text.len().saturating_sub(0))..];\n                if del_range.len() > TextSize::from(1) { buf.push('a'); }",
-         'harness': 'c13_splice', 'doc': 'aa'},
+        {'name': 'splice-does-not-delete', 'file': 'crates/glas/src/vfs.rs',
+         'old': "                buf += &text[usize::from(del_range.end())..];", 'new': "                buf += &text[usize::from(del_range.start())..];",
+         'harness': 'c13_splice', 'doc': 'aa', 'index': 1},
         {'name': 'normalize-keeps-carriage-returns', 'file': 'crates/glas/src/vfs.rs',
          'old': "        text.retain(|c| c != '\\r');", 'new': "        text.retain(|c| c != '\\u{0}');",
          'harness': 'c13_cr', 'doc': '\r'},
@@ -76,6 +76,7 @@ def run_canary(prop, c, idx, tier):
     if not pick:
         shutil.rmtree(d, ignore_errors=True)
         return {'name': c['name'], 'status': 'skipped', 'why': 'no harness for document %r in this tier' % c['doc']}
+    pick = pick[min(c.get('index', 0), len(pick) - 1):]
     r = kani_run.cargo_kani(os.path.join(d, 'crate'), 'verif_kani::' + pick[0]['name'], FLAGS, 1500)
     shutil.rmtree(d, ignore_errors=True)
     if r['status'] == 'FAILED':
